@@ -243,6 +243,60 @@ func suiteC10(s *Suite, rng *Rng, tier string) {
 				} else {
 					verifyCase10("cbor-roundtrip", &uc, false)
 				}
+				// an altered chain (last revocation value changed) sent with extra members beside the signed data that spell
+				// out an accumulator fitting the altered chain: only the issuer-signed data may say what the accumulator is
+				for _, enc := range []string{"json", "cbor"} {
+					forged := cloneUpdate(base)
+					lastEv := forged.Events[len(forged.Events)-1]
+					lastEv.E = new(gbig.Int).Add(lastEv.E, bi(2))
+					fitting := *h.accs[to]
+					fitting.EventHash = lastEv.VerifHash()
+					var tree2 map[string]interface{}
+					var accTree interface{}
+					var recv revocation.Update
+					var derr error
+					if enc == "json" {
+						fj, _ := json.Marshal(forged)
+						json.Unmarshal(fj, &tree2)
+						aj, _ := json.Marshal(&fitting)
+						json.Unmarshal(aj, &accTree)
+						if sa, ok := tree2["sacc"].(map[string]interface{}); ok {
+							for _, name := range []string{"acc", "accumulator", "Accumulator", "Acc"} {
+								sa[name] = accTree
+							}
+						}
+						fj2, _ := json.Marshal(tree2)
+						derr = json.Unmarshal(fj2, &recv)
+					} else {
+						fc, _ := cbor.Marshal(forged, cbor.EncOptions{})
+						var ctree map[interface{}]interface{}
+						if err := cbor.Unmarshal(fc, &ctree); err != nil {
+							continue
+						}
+						ac, _ := cbor.Marshal(&fitting, cbor.EncOptions{})
+						var actree interface{}
+						cbor.Unmarshal(ac, &actree)
+						if sa, ok := ctree["sacc"].(map[interface{}]interface{}); ok {
+							for _, name := range []string{"acc", "accumulator", "Accumulator", "Acc"} {
+								sa[name] = actree
+							}
+						}
+						fc2, err := cbor.Marshal(ctree, cbor.EncOptions{})
+						if err != nil {
+							continue
+						}
+						derr = cbor.Unmarshal(fc2, &recv)
+					}
+					if derr != nil || recv.SignedAccumulator == nil {
+						s.Count("wire-injection:not-decodable:" + enc)
+						continue
+					}
+					acc, verr := recv.Verify(kp.Pk)
+					s.Nontrivial[fmt.Sprint("inject", enc, from, to)] = true
+					if verr == nil {
+						s.Violate("C10:altered-update-accepted", fmt.Sprintf("an update with an altered event was accepted because the message spelled out a fitting accumulator beside the signed data (%s); accumulator index %d", enc, acc.Index), L{enc, from, to})
+					}
+				}
 				// JSON documents mutated as trees
 				var tree interface{}
 				json.Unmarshal(js, &tree)
